@@ -7,6 +7,7 @@ CONSTANTS
   CacheWidths = FALSE
   SharedEqualRecords = TRUE
   ClassLevelOption = FALSE
+  StoreBeforeValidate = FALSE
   Emit = FALSE
   EmitOff = 0
 SPECIFICATION Spec
